@@ -44,6 +44,9 @@ const (
 )
 
 type Obligation struct {
+	Extra     []string // goal-local definitions (not visible to later obligations)
+	Level     int      // lemma instantiation level for the next query (0 = default)
+	LevelUsed int
 	Name      string
 	Fn        string
 	Class     string // S, F, T, R, L, G, V(acuity)
@@ -94,6 +97,11 @@ type FuncVC struct {
 	discovery    int
 	ordCount map[string]int
 	localDone map[string]bool
+	assertsSeen map[string]bool
+	allocs    map[string]*Val // address-taken locals by source name
+	sites     []string
+	siteOrd   map[*ssa.Call]int // ordinal of a call among the calls to the same callee, in source order
+	debugVals map[string]SVal // most recent value bound to a source-level local (go/ssa debug info)
 }
 
 type loopHead struct {
@@ -417,7 +425,7 @@ func NewFuncVC(W *World, fn *ssa.Function, fc *FuncContract) *FuncVC {
 		vals: map[ssa.Value]*Val{}, reach: map[*ssa.BasicBlock]Term{}, out: map[*ssa.BasicBlock]*State{},
 		edges: map[[2]int]Term{}, params: map[string]SVal{}, callOrd: map[string]int{}, nonnil: map[ssa.Value]bool{},
 		loopOrd: map[*ssa.BasicBlock]int{}, loopBody: map[*ssa.BasicBlock]map[*ssa.BasicBlock]bool{}, backEdge: map[[2]int]bool{},
-		headerSt: map[*ssa.BasicBlock]*loopHead{}, uncontracted: map[string]bool{}, trustedUsed: map[string]bool{}, ordCount: map[string]int{}, localDone: map[string]bool{}}
+		headerSt: map[*ssa.BasicBlock]*loopHead{}, uncontracted: map[string]bool{}, trustedUsed: map[string]bool{}, ordCount: map[string]int{}, localDone: map[string]bool{}, assertsSeen: map[string]bool{}, allocs: map[string]*Val{}, debugVals: map[string]SVal{}}
 	return vc
 }
 
@@ -548,6 +556,7 @@ func (vc *FuncVC) Generate() (err error) {
 	if vc.fn.Blocks == nil {
 		return fmt.Errorf("%s: no body", vc.name)
 	}
+	vc.numberSites()
 	vc.setupParams()
 	e0 := vc.env(vc.entry, nil)
 	for _, r := range vc.fc.Requires {
@@ -719,6 +728,9 @@ func (vc *FuncVC) enterBlock(b *ssa.BasicBlock) {
 			break
 		}
 		vc.vals[phi] = vc.mergePhi(phi, b, conds, preds)
+		if phi.Comment != "" && vc.vals[phi].Kind == vScalar {
+			vc.debugVals[phi.Comment] = vc.toSVal(vc.vals[phi], phi.Type())
+		}
 	}
 }
 
@@ -1008,4 +1020,73 @@ func instantiateLemma(e *Env, lm *Lemma, args []Expr) Term {
 	n := *e
 	n.vars = vars
 	return n.boolean(lm.Body)
+}
+
+// localVars exposes address-taken locals (by source name) as references.
+func (vc *FuncVC) localVars() map[string]SVal {
+	m := map[string]SVal{}
+	for name, v := range vc.debugVals {
+		if _, clash := vc.params[name]; !clash {
+			m[name] = v
+		}
+	}
+	for name, v := range vc.allocs {
+		if _, clash := vc.params[name]; clash {
+			continue
+		}
+		switch v.Kind {
+		case vScalar:
+			if p, ok := v.GoType.Underlying().(*types.Pointer); ok {
+				m[name] = SVal{T: v.T, Ty: SType{K: KRef, Elem: p.Elem()}}
+			}
+		case vLoc:
+			m[name] = SVal{T: v.Loc.Idx, Ty: SType{K: KRef, Elem: v.Loc.Type}}
+		}
+	}
+	return m
+}
+
+func (vc *FuncVC) numberSites() {
+	vc.siteOrd = map[*ssa.Call]int{}
+	by := map[string][]*ssa.Call{}
+	for _, b := range vc.fn.Blocks {
+		for _, ins := range b.Instrs {
+			c, ok := ins.(*ssa.Call)
+			if !ok {
+				continue
+			}
+			callee := c.Common().StaticCallee()
+			if callee == nil {
+				continue
+			}
+			n := contractName(callee)
+			by[n] = append(by[n], c)
+		}
+	}
+	for _, cs := range by {
+		sort.SliceStable(cs, func(i, j int) bool { return cs[i].Pos() < cs[j].Pos() })
+		for i, c := range cs {
+			vc.siteOrd[c] = i + 1
+		}
+	}
+}
+
+// goalLocal compiles a goal so that the definitions it introduces stay local to that goal.
+func (vc *FuncVC) goalLocal(f func() Term) (Term, []string) {
+	mark := len(vc.facts)
+	nf := vc.nfresh
+	touched := map[string]bool{}
+	for k := range vc.touched {
+		touched[k] = true
+	}
+	t := f()
+	extra := append([]string(nil), vc.facts[mark:]...)
+	vc.facts = vc.facts[:mark]
+	for k, v := range vc.defCache {
+		if v.idx > nf {
+			delete(vc.defCache, k)
+		}
+	}
+	vc.touched = touched
+	return t, extra
 }
